@@ -170,9 +170,26 @@ def check_binary(prog, rep, m):
 
     def is_member(g, yv, xv):
         # truth(reduce:any(bool(values == data[y,x])))
-        txt = cond_repr(g)
-        if 'reduce:any' in txt and "read('%s'" % data in txt and values in txt:
-            return True
+        from ..kutil import guard_atoms as _ga
+        cellr = Rat.atom(App('read', [data, yv, xv]))
+        for a in _ga([g]):
+            if isinstance(a, App) and a.name == 'reduce:any' and len(a.args) == 1:
+                inner = a.args[0]
+                ia = next(iter(inner.atoms()), None) if isinstance(inner, Rat) else None
+                # any(values == cell): the element-wise test must be the exact comparison of the list with this cell
+                if isinstance(ia, App) and ia.name == 'bool' and ia.args and isinstance(ia.args[0], tuple) and ia.args[0][0] == 'cmp' and \
+                        ia.args[0][1] == '==':
+                    d = ia.args[0][2]
+                    if d in (Rat.sym(values) - cellr, cellr - Rat.sym(values)) or \
+                            d in (Rat.atom(App('arr', [values])) - cellr, cellr - Rat.atom(App('arr', [values]))):
+                        return True
+                if isinstance(ia, App) and ia.name in ('ext:numpy.equal', 'call:numpy.equal') and len(ia.args) == 2 and \
+                        {repr(x_) for x_ in ia.args} in ({repr(Rat.sym(values)), repr(cellr)}, {repr(Rat.atom(App('arr', [values]))), repr(cellr)},
+                                                         {values, repr(cellr)}):
+                    return True
+                tolerant = isinstance(ia, App) and ia.name.split('.')[-1] in ('isclose', 'allclose')
+                return ('no' if tolerant else 'unknown',
+                        'the element-wise test inside any(..) is %s, not `%s == cell`' % (repr(inner)[:80], values))
         # or a flag set by a loop over ALL listed values when one equals the cell
         from ..kutil import flag_setting_paths, guard_atoms
         for a in guard_atoms([g]):
@@ -188,9 +205,11 @@ def check_binary(prog, rep, m):
                     return True
         return False
 
-    ok1 = len(ones) == 1 and len(ones[0].guards) == 1 and is_member(ones[0].guards[0], *ones[0].idx)
+    mem = is_member(ones[0].guards[0], *ones[0].idx) if len(ones) == 1 and len(ones[0].guards) == 1 else False
+    ok1 = True if mem is True else (None if isinstance(mem, tuple) and mem[0] == 'unknown' else False)
     rep.add('K4-binary', f, entry, 'class 1 under %s' % [cond_repr(g)[:80] for g in (ones[0].guards if ones else [])],
-            f.node.lineno, ok1, 'binary is 1 exactly on the listed values: the store of 1 must be guarded by membership only')
+            f.node.lineno, ok1, 'binary is 1 exactly on the listed values: the store of 1 must be guarded by membership only'
+            + ('; ' + mem[1] if isinstance(mem, tuple) else ''))
     ok0 = False
     if len(zeros) == 1:
         gs = flatten_and(zeros[0].guards)
